@@ -165,6 +165,22 @@ def gen_C02(rng, tier):
             L.append("st const f %s %s" % (("T:%d" % rng.randint(-99, 99)) if ct == "T" else ct, rand_f(rng)))
         L.append("st n2e f %s" % mk_out(rng, ci, 3))
         L.append("st tgfg f %s" % mk_out(rng, ci, rng.randint(-99, 99)))
+    # expirer with "never expire" limits (i64::MAX and neighbours) and clocks of either sign: the age `now - stamp` is formed
+    # first and compared with the limit (a precomputed cutoff `now - limit` would overflow for negative clocks)
+    for limit in [I64_MAX, I64_MAX - 1, 2 ** 62, 2 ** 63 - 10 ** 9]:
+        for now in [-5, -1, 0, 7, -10 ** 12, 10 ** 12, -(2 ** 62), I64_MIN + 20]:
+            for back in [0, 5, 10 ** 9]:
+                if I64_MIN <= now - back:
+                    L.append("st expirer f %s T:%d %d" % (out_some(now - back, rand_f(rng)), now, limit))
+    for limit in [0, 1, 10 ** 9]:
+        # (ages that overflow i64 are outside the modelled range: the property quantifies over non-overflowing clocks)
+        for (t0, now) in [(I64_MIN, I64_MIN + limit), (I64_MAX - limit, I64_MAX), (I64_MIN + 1, 0), (0, I64_MAX), (-3, I64_MAX - 3)]:
+            L.append("st expirer f %s T:%d %d" % (out_some(t0, rand_f(rng)), now, limit))
+    # exponent stream at the exact corner cases of the power function (x^0 = 1 also for x = 0, 0^negative = inf, 1^y = 1, ...):
+    # "present values are combined with exactly the corresponding operator"
+    for base in ["00000000", "80000000", "3f800000", "bf800000", "40000000", "c0000000", "3f000000", "7f800000", "ff800000", "7fc00000", "00000001", "3dcccccd"]:
+        for ex in ["00000000", "80000000", "bf800000", "3f800000", "3f000000", "bf000000", "40000000", "40400000", "c0000000", "7f800000", "ff800000", "7fc00000"]:
+            L.append("st exp S@1@%s S@2@%s" % (base, ex))
     L.append("st none f")
     # other payload types through the type-generic combinators
     for ty in ["b", "q"]:
